@@ -100,14 +100,14 @@ class C16(Prop):
         "value_dispatch_spec", "svalue_dispatch_spec", "restore_dispatch_as_in_source",
         "nesting_and_dry_run_sites_as_modelled", "roundtrip_float_keys", "keys_distinct_with_float_keys",
         "restore_ignores_stale_state", "save_ignores_stale_state", "reset_sites_as_modelled",
-        "restore_into_another_program_version", "size_table_capacity_ok", "table_sites_as_modelled")]
+        "restore_into_another_program_version", "size_table_capacity_ok", "table_sites_as_modelled", "saveVariableEfun_ok")]
     witness_theorems = ["NV.C16.Witness." + t for t in (
         "float_keys_collapse", "roundtripFloatKeys_Full_false", "cr_round_trips", "stray_byte_in_array_ok",
         "inf_is_written_as_number", "same_name_saved", "same_name_variables", "old_mask_loses_the_key",
         "stale_counter_without_reset", "stale_table_gives_wrong_value", "stale_counter_refuses_save", "zero_capacity_with_a_table_never_ends")]
     consts = [("maxSaveSvalueDepth", "MAX_SAVE_SVALUE_DEPTH"), ("nameStatic", "NAME_STATIC"),
               ("saveExtLen", "sizeof(SAVE_EXTENSION) - 1"), ("saveExt0", "SAVE_EXTENSION[0]"), ("saveExt1", "SAVE_EXTENSION[1]"),
-              ("fillPercent", "FILL_PERCENT"), ("maxTableSize", "MAX_TABLE_SIZE"), ("mapHashTableSize", "MAP_HASH_TABLE_SIZE")]
+              ("ushrtMax", "(unsigned short)-1"), ("fillPercent", "FILL_PERCENT"), ("maxTableSize", "MAX_TABLE_SIZE"), ("mapHashTableSize", "MAP_HASH_TABLE_SIZE")]
     const_headers = ["lib/efuns/options.h", "lib/lpc/program.h", "lib/lpc/mapping.h"]
     quick_n = 1200
     thorough_n = 20000
@@ -252,6 +252,9 @@ class C16(Prop):
         if not mv or not mt or not mf:
             raise X.TieBroken("site:buffers", "var[] / tmp_name[] / the .tmp format not recognised")
         rc = open(os.path.join(E.REPO, "lib/rc/rc.cpp")).read()
+        m3 = re.search(r'"MaxStringLength",\s*\d+,\s*(\d+)\)', rc)
+        if not m3:
+            raise X.TieBroken("const:MaxStringLength", "default of MaxStringLength not found in lib/rc/rc.cpp")
         m2 = re.search(r'"MaxArraySize",\s*\d+,\s*(\d+)\)', rc)
         if not m2:
             raise X.TieBroken("const:MaxArraySize", "default of MaxArraySize not found in lib/rc/rc.cpp")
@@ -421,7 +424,15 @@ class C16(Prop):
                       "/-- `save_max_depth = N` of a fresh table -/\ndef sizeTableInitial : Nat := %s"
                       % (", ".join("%s=%s" % (k, "yes" if v else "NO") for k, v in table_sites.items()),
                          "true" if all(table_sites.values()) else "false", inits[0] if inits else "0"))
-        broken = [(g, k) for g, d in (("size-table", table_sites), ("hash-table", hash_sites), ("nesting-limit", nest_sites), ("dry-run", dry_sites),
+        svw = ws(src[src.find("char* save_variable (svalue_t * var)"):src.find("static void cns_just_count")])
+        msv = re.search(r'save_svalue_depth = 0; theSize = svalue_save_size \(var\); if \(theSize - 1 > \(size_t\)CONFIG_INT '
+                        r'\(__MAX_STRING_LENGTH__\)\) error \("((?:[^"\\]|\\.)*)"\); new_str = new_string \(theSize - 1,', svw)
+        limit_sites = {"save_variable tests the size against MaxStringLength before it allocates": msv is not None}
+        state_txt += ("\n/-- save_variable(): `if (theSize - 1 > MaxStringLength) error (..)` in front of the allocation; its message; the\n"
+                      "    default of MaxStringLength (lib/rc/rc.cpp; the harness does not override it) -/\n"
+                      "def saveVariableLimitMessage : String := %s\ndef maxStringLength : Nat := %s"
+                      % ('"' + (msv.group(1)[:-2] if msv and msv.group(1).endswith("\\n") else (msv.group(1) if msv else "")) + '"', m3.group(1)))
+        broken = [(g, k) for g, d in (("save_variable-limit", limit_sites), ("size-table", table_sites), ("hash-table", hash_sites), ("nesting-limit", nest_sites), ("dry-run", dry_sites),
                                        ("counter-reset", reset_sites)) for k, v in d.items() if not v]
         if broken:
             raise X.TieBroken("site:%s/%s" % broken[0],
@@ -901,6 +912,14 @@ class C16(Prop):
             "rv " + deep(300).hex(), "rv " + (b"({" * 150000).hex(), "rv " + (b"([" * 150000).hex(),
             "rv " + (b"({([1:(/" * 50000).hex(), "rv " + (b'(["a":' * 100000).hex(), "rt a[i1,a[i2]]",
             "set i1 i2 i3 i4 i5", "wf " + (b"#/c16/obj.c\nvi 7\nva " + b"({" * 150000 + b"\nvb 5\n").hex(), "ro 1", "ro 0"])
+        # save_variable refuses a text longer than MaxStringLength (200000: a string of 199998 bytes is the longest)
+        mk("save-variable-length-limit", ["rt s" + "61" * n for n in (199997, 199998, 199999, 200001)] +
+           ["rt a[s%s,s%s]" % ("62" * 100000, "63" * 99990), "rt a[s%s,s%s]" % ("62" * 100000, "63" * 99991), "rt a[i1,i2]"])
+        # an array_t counts its members in an unsigned short: a class text with more than 65535 members is refused (it came
+        # back with the count truncated: 65536 members as a class of none)
+        mk("class-member-count", ["rv " + (b"(/" + b"1," * n + b"/)").hex() for n in (65534, 65535, 65536, 65537, 70000)] +
+           ["rv " + (b"({(/" + b"1," * 65536 + b"/),})").hex(), "rv " + (b'([1:(/' + b",1" * 32768 + b"," + b"1," * 32768 + b"/),])").hex(),
+            "rx c(%s) %s" % (",".join(["i7"] * 65535), (b"(/" + b"7," * 65535 + b"/)").hex()), "rt c(i1,i2)"])
         mk("restore-after-error", ["rv " + ("({({1,2,3,}),({" + "1," * 20000 + "}),})").encode().hex(),
                                    "rx a[i1,i2] " + b"({1,2,})".hex(), "rx c(i1,i2) " + b"(/1,2,/)".hex(),
                                    "rx m{i1:i2} " + b"([1:2,])".hex(), "rt a[i1,i2]"])
